@@ -17,6 +17,24 @@ CHECKS = {
  "C02": ("model_checking",
    "Stateless model checking of the implementation: every schedule with <=2 deviations (quick; 3 for selected scenarios thorough) of 2-3 sender tasks (cloned handle or own descriptor) x two-message size mixes {small, exactly one packet, 2, 3 packets} x receiver behaviour {blocking, try_recv polling, receiver set, delayed} runs on the real code and kernel under a controlled scheduler; oracle: exactly-once, payload integrity, and order for every pair with return(a)<begin(b) on the logical clock; plus every sequential interleaving of two forked sender processes.",
    E1NOTE, "controlled-scheduler stateless exploration with iterative deviation (preemption) bounding (E1) + forked-process interleaving enumeration", "DESIGN.md §4 C02"),
+ "C07": ("model_checking",
+   "Stateless model checking of the implementation: every schedule with <=2 deviations (3 for single-route scenarios, thorough) of registering / sending / dropping tasks against the real router thread of a private RouterProxy: 1-3 routes, callback (with drop guard) and crossbeam-forwarding, 0-2 messages queued before registration and 0-2 after, registered from one or two tasks; oracle: per-route handler log equals that route's sends in order and nothing else, guard dropped exactly once after the last message, forwarding receivers disconnect, no deadlock, no panic on any thread.",
+   E1NOTE, "controlled-scheduler stateless exploration with deviation bounding (E1)", "DESIGN.md §4 C07"),
+ "C13": ("fault_enumeration",
+   "Exhaustive fault enumeration: all 2^7 (quick) / 2^10 (thorough) ENOBUFS patterns over the first transmission attempts of one send x {<=2000 B, one packet >2000 B, 2, 3, 6 packets} x {plain, sender+region attached} x {4608-byte, system default} buffer, with a reader task under the scheduler; oracle: Ok => exact payload, working attachments, intact follow-on message, transmitted bytes == accepted bytes; Err allowed; never a hang.",
+   E2NOTE, "exhaustive fault-pattern enumeration at the libc boundary (E2) under the controlled scheduler's default schedule", "DESIGN.md §4 C13"),
+ "C14": ("exploration",
+   "Bounded-exhaustive enumeration of serialisation programs (attach sender/receiver/region, data, fail here, nested send of a sub-program received from inside the outer deserialisation) of length <=3, nesting depth <=2 (3 thorough); oracle: accepted messages carry exactly their own attachments in place, endpoints of failed sends disconnect once program handles are gone, two follow-up messages on the same thread arrive intact, descriptor ledger empty.",
+   E2NOTE, "bounded-exhaustive program enumeration on the real code (E2), single task under the scheduler for exact hang detection", "DESIGN.md §4 C14"),
+ "C15": ("exploration",
+   "Bounded-exhaustive enumeration of attachment counts (12 boundary counts quick, every count 0..=300 thorough) x 4 mixtures x 5 data-part sizes; oracle: refused => channel still usable; accepted => value arrives with every attachment probed; a receive that would hang is an exact deadlock report.",
+   E2NOTE, "bounded-exhaustive input enumeration on the real code (E2)", "DESIGN.md §4 C15"),
+ "C16": ("exploration",
+   "Bounded-exhaustive enumeration: all 144 (sent type, expected type) pairs of a 12-type family, every single-byte substitution/truncation/extension of each valid encoding, crafted attachment indices (out of range, reused), unused attachment lists, select-and-drop and bytes-receiver paths, each in a sacrificial child; oracle: value or error, no panic/abort/signal, attachments released (channels disconnect, ledger empty, no bad close).",
+   E2NOTE, "bounded-exhaustive input/mutation enumeration on the real code (E2)", "DESIGN.md §4 C16"),
+ "C17": ("model_checking",
+   "Stateless model checking of the implementation: every schedule with <=2 deviations of 0-2 live routes (callback / forwarding, optionally a message in flight) stopped by shutdown() from 1-2 tasks or by dropping the proxy, optionally racing add_route, followed by further sends and a wait for quiescence; oracle: no callback after the stop, every callback dropped exactly once (at shutdown return / at quiescence), forwarding receivers disconnected, late routes never invoked, no panic on any thread, no deadlock.",
+   E1NOTE, "controlled-scheduler stateless exploration with deviation bounding (E1)", "DESIGN.md §4 C17"),
 }
 
 NOT_YET = "check under construction in this session (see DESIGN.md §4); not yet claimed"
